@@ -123,6 +123,48 @@ def opVerify (j : Json) : Except String Json := do
   | .ok () => return Json.mkObj [("ok", true)]
   | .error r => return Json.mkObj [("ok", false), ("rule", ruleName r)]
 
+def optStrJson : Option String → Json
+  | some s => Json.str s
+  | none => Json.null
+
+def dbcSignalToJson (s : DbcSignal) : Json :=
+  Json.mkObj [("name", s.name), ("start", s.start), ("len", s.length), ("big", s.bigEndian),
+    ("signed", s.signed), ("float", s.isFloat), ("unit", optStrJson s.unit), ("is_mux", s.isMux),
+    ("mux_ids", match s.muxIds with | some l => Json.arr (l.map (fun (n : Nat) => Json.num ⟨(n : Int), 0⟩)).toArray | none => Json.null),
+    ("mux_signal", optStrJson s.muxSignal)]
+
+def dbcErrName : DbcErr → String
+  | .noLayout => "noLayout" | .empty => "empty" | .tooBig => "tooBig" | .noId => "noId"
+
+/-- dbc: expected messages per bus; optionally frames packed from values (`pack`: list of
+{impl index, values}) -/
+def opDbc (j : Json) : Except String Json := do
+  let S ← J.schema (← j.getObjVal? "schema")
+  let fuel := getFuel j
+  let mut out : List (String × Json) := []
+  match expectedDbc S fuel with
+  | .error e => out := [("err", Json.str (dbcErrName e))]
+  | .ok buses =>
+    out := [("buses", Json.arr (buses.map fun (b, ms) =>
+      Json.mkObj [("bus", b), ("messages", Json.arr (ms.map fun m =>
+        Json.mkObj [("id", Json.num ⟨m.frameId, 0⟩), ("name", m.name), ("dlc", m.dlc),
+          ("signals", Json.arr (m.signals.map dbcSignalToJson).toArray)]).toArray)]).toArray)]
+  match j.getObjValAs? (Array Json) "pack" with
+  | .ok items =>
+    let mut frames : Array Json := #[]
+    for it in items do
+      let ix ← it.getObjValAs? Nat "impl"
+      let vs ← it.getObjValAs? (Array Int) "values"
+      match S.impls[ix]? with
+      | none => throw "bad impl index"
+      | some impl =>
+        match generate S true fuel impl with
+        | none => frames := frames.push Json.null
+        | some (ls, _) => frames := frames.push (J.natsToJson (pack (packLeaves ls vs.toList)))
+    out := out ++ [("frames", Json.arr frames)]
+  | .error _ => pure ()
+  return Json.mkObj out
+
 def opSched (j : Json) : Except String Json := do
   let periods ← j.getObjValAs? (Array Int) "periods"
   let times ← j.getObjValAs? (Array Nat) "times"
@@ -138,6 +180,7 @@ def dispatch (j : Json) : Except String Json := do
   | "layout" => opLayout j
   | "verify" => opVerify j
   | "sched" => opSched j
+  | "dbc" => opDbc j
   | _ => throw s!"unknown op {op}"
 
 partial def loop (hin : IO.FS.Stream) (hout : IO.FS.Stream) : IO Unit := do
